@@ -11,7 +11,7 @@ import ast
 from dataclasses import dataclass, field
 from typing import Dict, List, Optional, Set, Tuple
 
-from ..dispatch import find_chains, mentioned_ctors
+from ..dispatch import find_chains, mentioned_ctors, resolve_subject
 from ..index import AnalysisError
 from ..report import Finding, RuleResult
 
@@ -107,12 +107,13 @@ def rule_exh(ctx, prop: str) -> RuleResult:
             raise AnalysisError(f"ADT {a.adt} not resolvable in {a.file}")
         adt_key = next(k for k, v in adts.mods.items() if v is adtmod)
         all_ctors = adtmod.ctors_of(a.sum)
-        chains = [ch for ch in find_chains(f, adts) if ch.subject == a.subject and any(x == adt_key and adtmod.ctors[c].sum == a.sum for x, c in ch.covered())]
+        a_subject = resolve_subject(f, adts, a.subject, adt_key, a.sum)
+        chains = [ch for ch in find_chains(f, adts) if ch.subject == a_subject and any(x == adt_key and adtmod.ctors[c].sum == a.sum for x, c in ch.covered())]
         if not chains:
             raise AnalysisError(f"anchor vanished: no dispatch on `{a.subject}` over {a.adt}.{a.sum} in {a.qualname}")
         main = max(chains, key=lambda ch: len(ch.cases))
         covered = {c for ch in chains for (x, c) in ch.covered() if x == adt_key}
-        covered |= {c for (x, c) in mentioned_ctors(f, adts, a.subject) if x == adt_key}
+        covered |= {c for (x, c) in mentioned_ctors(f, adts, a_subject) if x == adt_key}
         dk = main.default_kind()
         res.instances += 1
         res.nontrivial += 1
